@@ -504,6 +504,23 @@ def _it_filter(ex, c, a, d):
     return _owned(out)
 
 
+def _it_take_while(ex, c, a, d):
+    """Iterator::take_while over a list iterator: items up to (not including) the first one the predicate rejects; a symbolic answer forks"""
+    from .exec import ENV_PASS
+    it = deref(ex, a[0])
+    if not _is_it(it):
+        return ENV_PASS
+    out = []
+    for x in _rest(ex, it):
+        r = ex.call_value(ex.top_frame, a[1], [ex.ctx.ref_to(x)], "bool")
+        if not isinstance(r, BoolV):
+            return ENV_PASS
+        if not (r.t if isinstance(r.t, bool) else ex.decide(r.t)):
+            break
+        out.append(x)
+    return _owned(out)
+
+
 def _it_cloned(ex, c, a, d):
     from .exec import ENV_PASS
     it = deref(ex, a[0])
@@ -557,6 +574,7 @@ LIST_ADAPTORS2 = [
     (rx(r" as (?:std::iter::|core::iter::)?Iterator>::find::<"), _it_find),
     (rx(r" as (?:std::iter::|core::iter::)?Iterator>::filter::<"), _it_filter),
     (rx(r" as (?:std::iter::|core::iter::)?Iterator>::cloned::<"), _it_cloned),
+    (rx(r" as (?:std::iter::|core::iter::)?Iterator>::take_while::<"), _it_take_while),
     (rx(r" as (?:std::iter::|core::iter::)?Iterator>::peekable$"), _it_peekable),
     (rx(r"^(?:std::iter::|core::iter::)?Peekable::<.*>::peek$"), _it_peek),
     (rx(r" as (?:std::iter::|core::iter::)?(?:DoubleEnded)?Iterator>::rev$"), _it_rev),
